@@ -166,6 +166,30 @@ class FlowGen(object):
                     self.line([self.mark(), ("goto", end)])
                 self.items.append(("label", end))
                 self.line([self.mark()])
+        elif x < 0.875:
+            # ELSE-IF chain whose arms are a mix of bare line numbers and statements, always with a final ELSE
+            k = r.randint(1, 3)
+            end = Target()
+            used = []
+
+            def arm():
+                if r.random() < 0.6:
+                    t = Target()
+                    used.append(t)
+                    return ("line", t)
+                return ("stmts", [self.mark(), ("goto", end)] if r.random() < 0.5 else [self.mark()])
+            then = arm()
+            elifs = [(self.cond(), arm()) for _ in range(k)]
+            els = arm()
+            st = [self.mark()] if r.random() < 0.3 else []
+            st.append(("if", self.cond(), then, elifs, els))
+            self.line(st)
+            self.line([self.mark(), ("goto", end)])
+            for t in used:
+                self.items.append(("label", t))
+                self.line([self.mark(), ("goto", end)])
+            self.items.append(("label", end))
+            self.line([self.mark()])
         elif x < 0.93:
             # counter-guarded backward loop
             self.kid += 1
